@@ -676,7 +676,7 @@ def run(tier):
                         else:
                             vals = [b ^ 1, b ^ 0x80, 0, 0x7F, 0xFF, (b + 1) & 255]
                             if th:
-                                vals += [r.randrange(256), r.randrange(256)]
+                                vals += [(b - 1) & 255, 0x30, 0x80, 0x81, 0x05, r.randrange(256), r.randrange(256), r.randrange(256)]
                         seen = set()
                         for v in vals:
                             if v != b and v not in seen:
